@@ -281,6 +281,8 @@ where
                     };
                     // Re-spawn the task to keep accepting connections from the same socket.
                     incoming_join_set.spawn(accept_connection(incoming));
+                    #[cfg(pavex_verif)]
+                    super::verif_trace::gate("acc_after_accept", super::verif_trace::ACCEPTOR);
 
                     // A flag to track if the connection has been successfully sent to a worker.
                     let mut has_been_handled = false;
